@@ -341,7 +341,109 @@ R.add('L15.2', l152, lambda tier: [dict(first=list(a), second=list(b), maxsize=(
       expect=['fromJson(toJson(x)) reproduces x', 'the first class round-trips'],
       bounds='10 ordered pairs of annotation shapes; first class with a fixed 2-element value, second as in L15.1')
 
-for _lid in ['L15.1', 'L15.2']:
+# ------------------------------------------------------------------ L15.3 class hierarchies
+_JCOUNT = [0]
+
+
+def mk_json_hierarchy(S, T):
+    """a message class and a class derived from it with other fields (fresh names per call: the registry refuses to
+    register a name twice).  T maps 'int' / 'str' to the types used in annotations."""
+    import os
+    _JCOUNT[0] += 1
+    tag = '%d_%d' % (os.getpid(), _JCOUNT[0])
+    ns = {}
+    src = ('class JEnt%(t)s(S):\n    uid: INT = 0\n    kind: STR = ""\n'
+           'class JPlayer%(t)s(JEnt%(t)s):\n    name: STR = ""\n    scores: DICT = None\n    tags: LIST = None\n') % dict(t=tag)
+    exec(src, {'S': S, 'INT': T['int'], 'STR': T['str'], 'DICT': Dict[T['int'], T['int']], 'LIST': List[T['str']],
+               '__name__': __name__}, ns)
+    return ns['JEnt' + tag], ns['JPlayer' + tag]
+
+
+def _l153_run(Ent, Player, order, vals, mkdict, eq, fail):
+    b = Ent()
+    b.uid, b.kind = vals['uid'], vals['kind']
+    p = Player()
+    p.name, p.scores, p.tags = vals['name'], mkdict([(vals['k0'], vals['v0'])]), [vals['tag0']]
+    out = {}
+
+    def rt(x, label):
+        try:
+            j = x.toJson()
+            y = type(x).fromJson(j)
+            z = type(x).loads(x.dumps())
+        except Exception as ex:
+            fail('round trip of the %s class raised' % label, type(ex).__name__ + ': ' + str(ex)[:80])
+            return
+        out[label] = (j, y, z)
+    for label in order:
+        rt(b if label == 'base' else p, label)
+    res = []
+    if 'base' in out:
+        j, y, z = out['base']
+        res.append((And(eq(y.uid, b.uid), eq(y.kind, b.kind), eq(z.uid, b.uid), eq(z.kind, b.kind)), 'the base class round-trips field for field'))
+    if 'derived' in out:
+        j, y, z = out['derived']
+        res.append((sorted(j.keys()) == ['name', 'scores', 'tags'], 'toJson of a derived class holds the fields that class declares'))
+        res.append((And(eq(y.name, p.name), eq(y.scores, p.scores), eq(y.tags, p.tags)), 'fromJson(toJson(x)) reproduces a derived class field for field'))
+        res.append((And(eq(z.name, p.name), eq(z.scores, p.scores), eq(z.tags, p.tags)), 'loads(dumps(x)) reproduces a derived class field for field'))
+    return res
+
+
+ORDERS = [('base', 'derived'), ('derived', 'base'), ('derived',), ('base', 'derived', 'base', 'derived')]
+
+
+def l153():
+    """a message class derived from another message class has its own typed fields: whichever of the two went through
+    JSON first, each round-trips field for field (annotation look-ups cached per class must not leak along the MRO)"""
+    Ent, Player = mk_json_hierarchy(Serializable, LEAFT)
+    order = ORDERS[choose(len(ORDERS), 'first_use_order')]
+    vals = dict(uid=symint('uid'), kind=text.opaque('kind'), name=text.opaque('name'), k0=symint('k0'), v0=symint('v0'), tag0=text.opaque('tag0'))
+
+    def mkdict(items):
+        d = SxDict()
+        for k, v in items:
+            d[k] = v
+        return d
+
+    def fail(msg, err):
+        core.fail(msg, error=err)
+    for cond, msg in _l153_run(Ent, Player, order, vals, mkdict, c13.deq, fail):
+        check(cond, msg)
+
+
+def replay_l153(cfg, m):
+    s = real('mpgameserver.serializable')
+    Ent, Player = mk_json_hierarchy(s.Serializable, REALT)
+    order = ORDERS[[v for k, v in m.items() if k.startswith('first_use_order')][0] if any(k.startswith('first_use_order') for k in m) else 0]
+    vals = dict(uid=m.get('uid', 7), kind='kind-\u00e9', name='name-\u4e16', k0=m.get('k0', -3), v0=m.get('v0', 2 ** 40), tag0='t')
+    fails = []
+
+    def fail(msg, err):
+        fails.append('%s: %s' % (msg, err))
+
+    def And_(*c):
+        return all(c)
+
+    def eq(a, b):
+        return a == b
+    g = _l153_run.__globals__
+    saved = g['And']
+    g['And'] = And_
+    try:
+        res = _l153_run(Ent, Player, order, vals, dict, eq, fail)
+    finally:
+        g['And'] = saved
+    fails += [msg for cond, msg in res if not cond]
+    return bool(fails), 'order %s: %s' % ('/'.join(order), '; '.join(fails[:3]) or 'ok')
+
+
+R.add('L15.3', l153, [{}], replay=replay_l153,
+      desc='a message class derived from another message class, every order of first use through JSON: both round-trip field for '
+           'field by fromJson(toJson) and loads(dumps); toJson of the derived class holds its own declared fields',
+      expect=['fromJson(toJson(x)) reproduces a derived class field for field', 'the base class round-trips field for field'],
+      bounds='one base class (int, str) and one derived class (str, Dict[int,int], List[str]); 4 orders of use; values symbolic, containers of one element')
+
+for _lid in ['L15.1', 'L15.2', 'L15.3']:
     if _lid in R.lemmas:
         R.lemmas[_lid].api = True
 
